@@ -110,11 +110,21 @@ def r2_no_solution(ctx, chk, rule="C06.2"):
         chk.violation(rule, f.where(), "the 'no solution' test runs before the reachability sweep, when R[0] is still its initial value",
                       expected="after the sweep", found="before", construct="no-solution raise order")
         return
-    if cond == want:
+    fl = ("v", flag[0])
+    conj = set(cond[1]) if cond[0] == "and" else {cond}
+    zero_tests = {simp(("cmp", "==", r0, C(0))), simp(("not", ("truthy", r0))), simp(("cmp", "==", r0, C(0.0)))}
+    flag_tests = {("truthy", fl), simp(("cmp", "==", fl, C(True))), simp(("cmp", "is", fl, C(True)))}
+    others = conj - zero_tests - flag_tests
+    r0_ok, flag_ok = bool(conj & zero_tests), bool(conj & flag_tests)
+    about = [c for c in others if any(t in (r0, fl) for t in C02._sub(c))]
+    if cond == want or (r0_ok and flag_ok and not others):
         chk.ok(rule, f.where(), "raise ValueError iff state_list[0].reach_probability == 0 and %s, after the sweep" % flag[0])
-    else:
+    elif about or not r0_ok or not flag_ok:
+        # another test on the initial value (a tolerance, a rounding), the flag not consulted, or a further condition on either
         chk.violation(rule, f.where(), "the 'no solution' error is raised iff `%s`; specification: `%s`" % (show(cond), show(want)),
                       expected=show(want), found=show(cond), construct="no-solution guard")
+    else:
+        chk.undecided(rule, f.where(), "the 'no solution' error has a further condition that is not recognised: `%s`" % show(cond))
 
 
 def r2b_flag_raises(ctx, chk, rule="C06.2b"):
@@ -165,7 +175,9 @@ def r3a_definite_assignment(ctx, chk, rule="C06.3a"):
                     continue
                 folds = classify(L)
                 for v, fo in folds.items():
-                    if fo is None or L.init.get(v, UNBOUND) != UNBOUND:
+                    # unbound before the loop, or None before the loop (then an AttributeError / TypeError instead of an
+                    # UnboundLocalError when no iteration assigns)
+                    if fo is None or L.init.get(v, UNBOUND) not in (UNBOUND, C(None)) or (L.init.get(v, UNBOUND) == C(None) and fo.kind not in ("ARG", "LAST")):
                         continue
                     used_after = _used(k, ("res", lid, v))
                     if not used_after:
@@ -231,6 +243,11 @@ def _nonempty_guard(k, L):
     if cond is None:
         return None
     srcs = (("truthy", L.source), simp(("cmp", "!=", C(0), ("call", "len", (L.source,), ()))), simp(("cmp", "<", C(0), ("call", "len", (L.source,), ()))))
+    le = k.listexpr(L.source)
+    if le is not None and le[1] == TRUE and le[3] and isinstance(le[0], tuple):
+        # one entry per element of the base list (a generator / comprehension without a filter): empty together
+        b = le[0]
+        srcs += (("truthy", b), simp(("cmp", "!=", C(0), ("call", "len", (b,), ()))), simp(("cmp", "<", C(0), ("call", "len", (b,), ()))))
     conj = cond[1] if cond[0] == "and" else (cond,)
     for c in conj:
         if c in srcs:
@@ -263,6 +280,9 @@ def r3b_constant_subscripts(ctx, chk, rule="C06.3b"):
             if bp == "self.next_states":
                 if _dominated_by_nonempty_test(ctx, f, node, "self.next_states"):
                     chk.ok(rule, where, "`%s[%d]` is dominated by a non-emptiness test of self.next_states" % (text, node.slice.value))
+                elif _guarded_at_call_sites(ctx, f, 0):
+                    chk.ok(rule, where, "`%s[%d]` in the helper %s: every call `self.%s(...)` is dominated by a non-emptiness test of self.next_states" % (
+                        text, node.slice.value, f.short, f.name))
                 else:
                     chk.violation(rule, where, "`%s[%d]` is evaluated without a dominating non-emptiness test: a state whose transitions were all pruned raises IndexError out of solve()" % (text, node.slice.value),
                                   expected="if not self.next_states: return ... before the subscript", found=norm_stmt(ctx.cfg(f).stmt_of(node)),
@@ -346,6 +366,30 @@ def _dominated_by_nonempty_test(ctx, f, node, path):
         if inside(other_branch):
             return True
     return False
+
+
+def _guarded_at_call_sites(ctx, f, depth):
+    """f is a private helper method (leading underscore) that is only called as `self.f(...)` from methods of the same object,
+    and every such call is dominated by a non-emptiness test of self.next_states (in the caller, or in the caller's callers
+    when the caller is itself such a helper); nothing between the test and the call rewrites the list."""
+    if depth > 2 or f.cls is None or not f.name.startswith("_") or f.name.startswith("__"):
+        return False
+    sites = ctx.cg.callers_of(f)
+    if not sites:
+        return False
+    for g, call in sites:
+        if not (isinstance(call.func, ast.Attribute) and isinstance(call.func.value, ast.Name) and call.func.value.id == "self") or g.cls is None:
+            return False
+        if any(isinstance(x, ast.Attribute) and isinstance(x.ctx, (ast.Store, ast.Del)) and x.attr == "next_states" for x in walk_no_nested_defs(g.node)):
+            return False
+        if not (_dominated_by_nonempty_test(ctx, g, call, "self.next_states") or _guarded_at_call_sites(ctx, g, depth + 1)):
+            return False
+    # the method value must not escape (passed around and called elsewhere)
+    for h in ctx.prog.all_funcs(("tad.py",)):
+        for x in walk_no_nested_defs(h.node):
+            if isinstance(x, ast.Attribute) and x.attr == f.name and isinstance(x.ctx, ast.Load) and not (isinstance(getattr(x, "parent", None), ast.Call) and x.parent.func is x):
+                return False
+    return True
 
 
 def _single_def_listcomp(ctx, f, node, name):
